@@ -845,8 +845,17 @@ class CSSStyleSheet(cssutils.stylesheets.StyleSheet):
                             index = len(self._cssRules) - i
                             break
                 else:
-                    # find first point to insert
+                    # find first point to insert, after @charset, @import
+                    # and @namespace
+                    start = 0
                     for i, r in enumerate(self._cssRules):
+                        if r.type in (
+                            r.CHARSET_RULE,
+                            r.IMPORT_RULE,
+                            r.NAMESPACE_RULE,
+                        ):
+                            start = i + 1
+                    for i, r in enumerate(self._cssRules[start:], start):
                         if r.type in (
                             r.MEDIA_RULE,
                             r.PAGE_RULE,
